@@ -1,13 +1,47 @@
 package types
 
 import (
+	"encoding/json"
 	"fmt"
+	"math"
 	"reflect"
 	"strconv"
+	"strings"
 )
 
 // JSONValue is an internal type used in storing various types, for converting any type to JSON supported type.
 type JSONValue interface{}
+
+// NormalizeValue returns the value as every other replica will see it: what its JSON encoding (the form in which an
+// operation carries it) decodes to. Numbers become float64, text becomes valid UTF-8, and any other Go value (struct,
+// slice, array, map, pointer to one of them, []byte, time.Time, json.RawMessage, ...) becomes the generic JSON value
+// of its encoding. The result does not alias the caller's value, which the caller may change afterwards. A value that
+// JSON cannot carry (NaN, an infinity, a map with keys that are not text, a channel) yields nil: it is not a value.
+func NormalizeValue(t interface{}) JSONValue {
+	switch v := ConvertToJSONSupportedValue(t).(type) {
+	case nil:
+		return nil
+	case float64:
+		if math.IsNaN(v) || math.IsInf(v, 0) {
+			return nil
+		}
+		return v
+	case string:
+		return strings.ToValidUTF8(v, "\uFFFD")
+	case bool:
+		return v
+	default:
+		b, err := json.Marshal(v)
+		if err != nil {
+			return nil
+		}
+		var generic interface{}
+		if err := json.Unmarshal(b, &generic); err != nil {
+			return nil
+		}
+		return generic
+	}
+}
 
 // ConvertValueList converts an array of values to JSONSupportedValue
 func ConvertValueList(values []interface{}) ([]interface{}, error) {
@@ -16,7 +50,7 @@ func ConvertValueList(values []interface{}) ([]interface{}, error) {
 		if val == nil {
 			return nil, fmt.Errorf("null value cannot be inserted")
 		}
-		converted := ConvertToJSONSupportedValue(val)
+		converted := NormalizeValue(val)
 		if converted == nil {
 			return nil, fmt.Errorf("null value cannot be inserted")
 		}
